@@ -315,6 +315,95 @@ def inprocess_history_stream(ctx, tally):
             t.close()
 
 
+def override_capacity_guard_stream(ctx, sess, tally):
+    """--enable-override-variable-array-capacity lets the user pre-define <T>_<field>_ARRAY_CAPACITY_.  The advertised
+    _SERIALIZATION_BUFFER_SIZE_BYTES_ / _EXTENT_BYTES_ stay those of the DSDL definition, so they are only bounds if a capacity
+    ABOVE the DSDL one can never be built.  Oracle, for EVERY variable-length array position of every type: the header with
+    that array's macro = DSDL capacity + 1 must not compile — alone, with all other arrays of the type overridden too
+    (equal / reduced capacities, so that this one is not the first overridden array), and with
+    <T>_DISABLE_SERIALIZATION_BUFFER_CHECK_ pre-defined; control: all arrays overridden to the DSDL capacity (and to a reduced
+    one) must compile, so that a rejection is the guard's and not an accident."""
+    import concurrent.futures
+    import subprocess
+    from . import codec_targets as T
+    targets = [t for t in list(sess.targets) + list(sess.compile_only)
+               if isinstance(t, T.CTarget) and "--enable-override-variable-array-capacity" in t.extra_nnvg]
+    if not targets:
+        return
+    cands = []
+    for gt in sess.ns.types:
+        arrs = [f for f in gt.inner.fields if isinstance(f.data_type, pydsdl.VariableLengthArrayType)]
+        if arrs:
+            cands.append((gt, arrs))
+    cands.sort(key=lambda c: (-min(len(c[1]), 3), c[0].index))        # types with several overridable arrays first
+    if ctx.quick:
+        cands = cands[:30]
+    jobs = []
+    for t in targets:
+        for gt, arrs in cands:
+            n = T.c_name(gt.model)
+            hdr = T._header_path(gt.model, ".h")
+            mac = lambda f: f"{n}_{f.name}_ARRAY_CAPACITY_"
+            equal = {mac(f): f.data_type.capacity for f in arrs}
+            reduced = {mac(f): max(1, f.data_type.capacity - 1) for f in arrs}
+            jobs.append((t, gt, hdr, "control:all-equal", None, dict(equal), True))
+            jobs.append((t, gt, hdr, "control:all-reduced", None, dict(reduced), True))
+            for j, f in enumerate(arrs):
+                over = f.data_type.capacity + 1
+                jobs.append((t, gt, hdr, "only-this-one", f, {mac(f): over}, False))
+                jobs.append((t, gt, hdr, "others-equal", f, dict(equal, **{mac(f): over}), False))
+                jobs.append((t, gt, hdr, "others-reduced", f, dict(reduced, **{mac(f): over}), False))
+                jobs.append((t, gt, hdr, "check-disabled-by-user", f, dict({mac(f): over}, **{f"{n}_DISABLE_SERIALIZATION_BUFFER_CHECK_": None}), False))
+
+    def run(job):
+        t, gt, hdr, variant, f, defs, must_compile = job
+        flags = [f"-D{k}" + ("" if v is None else f"={v}U") for k, v in defs.items()]
+        cmd = [t.cc, "-std=c11", "-fsyntax-only", "-I", str(t.outdir / "gen")] + flags + ["-x", "c", "-"]
+        try:
+            p = subprocess.run(cmd, input=f'#include "{hdr}"\n', capture_output=True, text=True, timeout=120)
+            return p.returncode == 0, flags, p.stderr[-600:]
+        except subprocess.TimeoutExpired:
+            return None, flags, "compiler timed out"
+    with concurrent.futures.ThreadPoolExecutor(max_workers=T.NCPU) as ex:
+        results = list(ex.map(run, jobs))
+    for (t, gt, hdr, variant, f, defs, must_compile), (ok, flags, log) in zip(jobs, results):
+        ctx.case((gt.tstr, t.name, "capacity-guard", variant, f.name if f else "-"), True)
+        ctx.count("capacity-guard:" + ("control" if must_compile else "above-dsdl-capacity"))
+        if ok is None or ok == must_compile:
+            continue
+        if must_compile:
+            tally.fail({"kind": "capacity-guard:control-does-not-compile", "lang": "c", "sig": variant},
+                       f"{t.name}: {hdr} does not compile with every overridable capacity of {gt.full_name} set to a legal value ({variant})",
+                       lambda t=t, gt=gt, hdr=hdr, flags=flags, log=log: {"type": f"{gt.full_name}.{gt.version[0]}.{gt.version[1]}", "target": t.name, "options": t.options,
+                                                                        "header": hdr, "compiler_flags": flags, "log": log, "capacity_guard": True,
+                                                                        "files": E.deps_texts(sess.ns, gt)})
+        else:
+            pos = [x.name for x in gt.inner.fields if isinstance(x.data_type, pydsdl.VariableLengthArrayType)].index(f.name)
+            tally.fail({"kind": "capacity-guard:accepted-above-dsdl-capacity", "lang": "c", "sig": "first-array" if pos == 0 else "later-array"},
+                       f"{t.name}: {hdr} compiles with {T.c_name(gt.model)}_{f.name}_ARRAY_CAPACITY_ = {f.data_type.capacity + 1} although the DSDL capacity is "
+                       f"{f.data_type.capacity} ({variant}; overridable array #{pos} of the type): the advertised buffer size / extent are no bounds any more",
+                       lambda t=t, gt=gt, hdr=hdr, flags=flags, f=f, variant=variant: {
+                           "type": f"{gt.full_name}.{gt.version[0]}.{gt.version[1]}", "target": t.name, "options": t.options, "header": hdr, "field": f.name,
+                           "dsdl_capacity": f.data_type.capacity, "variant": variant, "compiler_flags": flags, "expected": "#error", "got": "compiles",
+                           "capacity_guard": True, "files": E.deps_texts(sess.ns, gt)})
+
+
+def replay_capacity_guard(ctx, rp):
+    import json
+
+    def plan(ns, base, tier):
+        return [t for t in E.target_plan(ns, base, "thorough") if t.name == rp["target"]]
+    sess = E.Session(0, "quick", 0, 0, texts=rp["files"], plan=plan)
+    try:
+        tally = E.Tally(ctx)
+        override_capacity_guard_stream(ctx, sess, tally)
+        for f in ctx.failures:
+            print(json.dumps({"key": f["key"], "what": f["what"]}))
+        return 1 if ctx.failures else 0
+    finally:
+        sess.cleanup()
+
+
 def check_exports(ctx, ns, targets, model_bounds, bad):
     """Every constant the generated code of `targets` exports, against the PyDSDL model of `ns`."""
     for t in targets:
@@ -381,7 +470,10 @@ def run(ctx):
     ctx.rule = ("per type: every exported constant of every target vs the PyDSDL model and the Lean `bounds`; serbuf of the zero value, a "
                 "maximal-length value and random values into buffers of every size 0..max+1 (sampled sizes when max > 48 bytes); up to K "
                 "variable-length arrays per type in turn over capacity (+1, roundup8(capacity), +1) into buffers of exactly the advertised "
-                "size and +1 on every C / C++ option set incl. --enable-override-variable-array-capacity; non-trivial = "
+                "size and +1 on every C / C++ option set incl. --enable-override-variable-array-capacity; capacity guard of the override option: "
+                "per type (quick: 30 types, those with several arrays first) and per variable-length array position the header is compiled with "
+                "that capacity macro = DSDL capacity + 1 (alone / other arrays overridden equal / reduced / buffer check disabled by the user): "
+                "must be rejected; controls all-equal and all-reduced must compile; non-trivial = "
                 "type has at least one field; distinct by (type, target, item) / (type, value, capacity)")
     ns = sess.ns
 
@@ -407,6 +499,7 @@ def run(ctx):
     check_exports(ctx, ns, sess.targets, model_bounds, bad)
 
     # ---- regeneration over an existing output tree -------------------------------------------------------------------
+    override_capacity_guard_stream(ctx, sess, tally)
     regeneration_stream(ctx, tally, drv)
     inprocess_history_stream(ctx, tally)
 
@@ -450,6 +543,8 @@ def replay(ctx, path):
     import json
     r = json.loads(open(path).read())
     rp = r.get("replay") or {}
+    if rp.get("capacity_guard"):
+        return replay_capacity_guard(ctx, rp)
     if "regeneration_inprocess" in rp:
         tally = E.Tally(ctx)
         inprocess_history_stream(ctx, tally)
